@@ -127,9 +127,10 @@ def run(res, tier):
     else:
         res.inconclusive.append("Archive::page_object_size: %d bodies" % len(pb))
     mprop.finish_engine(res, E)
-    for op in ("publish_replace", "create_empty"):
+    for op, mode in (("publish_replace", "empty"), ("create_empty", "empty"),
+                     ("publish_append", "bucket"), ("publish_replace", "bucket"), ("delete_found", "bucket")):
         E = mprop.engine(res)
-        total += check_empty_chain(res, E, op)
+        total += check_empty_chain(res, E, op, mode)
         mprop.finish_engine(res, E)
     E = mprop.engine(res)
     res.distinct += total
@@ -140,8 +141,11 @@ def run(res, tier):
                       "whose chain of empty objects has 0..%d cells at symbolic, pairwise disjoint positions below 2^40: afterwards "
                       "the chain reachable from the empty index holds exactly the old cells minus the reused / merged one plus "
                       "the new remainder / new empty object" % CHAIN)
-    res.outside += ["the map behaviour of the archive over operation sequences (publish / update / delete / fetch, reopen), the "
-                    "bucket chains and the byte-level tiling of the file: object headers are modelled as an abstract heap "
+    res.bounds.append("bucket chain: ONE call of publish_append / publish_replace / delete_found from an arbitrary archive whose "
+                      "chain of objects with the operation's hash has 0..%d cells: afterwards the chain reachable from the bucket "
+                      "index is the new object followed by the old cells, resp. the old cells without the deleted one" % CHAIN)
+    res.outside += ["the map behaviour of the archive over operation sequences (publish / update / delete / fetch, reopen), "
+                    "name comparison inside a bucket and the byte-level tiling of the file: object headers are modelled as an abstract heap "
                     "(position -> size, next, is_empty), I/O errors in the middle of an operation are not considered"]
     res.assumptions += ["callers pass page-aligned sizes to fits (empty objects and page_object_size results)"]
     res.rule = "one case = one path of fits / min_object_size / page_object_size with z3 queries on 64-bit bit-vectors"
@@ -151,8 +155,9 @@ def run(res, tier):
 CHAIN = 3
 
 
-def check_empty_chain(res, E, op):
-    """One step of an empty-chain operation on an abstract heap of object headers."""
+def check_empty_chain(res, E, op, mode="empty"):
+    """One step of an empty-chain (mode "empty") or bucket-chain (mode "bucket") operation on an abstract heap of
+    object headers."""
     F_ = "src/utils/archive.rs"
     body = [b.parse() for n_, bs in E.prog.bodies.items()
             if re.search(r"utils::archive::<impl at src/utils/archive\.rs:[^>]*>::%s$" % op, n_) for b in bs]
@@ -162,20 +167,22 @@ def check_empty_chain(res, E, op):
     body = body[0]
     hf = mir.struct_fields("ObjectHeader", F_)
     i_size, i_next, i_empty = hf.index("size"), hf.index("next"), hf.index("is_empty")
-    res.functions.append("utils::archive::Archive::<Meta>::%s with unlink_empty inlined, object headers as an abstract heap (MIR)" % op)
-    BV = lambda nm: z3.BitVec("%s_%s" % (op, nm), 64)
+    res.functions.append("utils::archive::Archive::<Meta>::%s %s, object headers as an abstract heap (MIR)"
+                         % (op, "with unlink_empty inlined: chain of empty objects" if mode == "empty" else "bucket chain of the object's hash"))
+    op_ = op if mode == "empty" else op + "_bucket"
+    BV = lambda nm: z3.BitVec("%s_%s" % (op_, nm), 64)
     c = [BV("cell%d" % i) for i in range(CHAIN)]
-    L = z3.Int(op + "_chain_len")
-    nd0 = z3.Array(op + "_next_is_some", z3.BitVecSort(64), z3.IntSort())
-    nv0 = z3.Array(op + "_next", z3.BitVecSort(64), z3.BitVecSort(64))
-    sz0 = z3.Array(op + "_size", z3.BitVecSort(64), z3.BitVecSort(64))
-    ie0 = z3.Array(op + "_is_empty", z3.BitVecSort(64), z3.BoolSort())
+    L = z3.Int(op_ + "_chain_len")
+    nd0 = z3.Array(op_ + "_next_is_some", z3.BitVecSort(64), z3.IntSort())
+    nv0 = z3.Array(op_ + "_next", z3.BitVecSort(64), z3.BitVecSort(64))
+    sz0 = z3.Array(op_ + "_size", z3.BitVecSort(64), z3.BitVecSort(64))
+    ie0 = z3.Array(op_ + "_is_empty", z3.BitVecSort(64), z3.BoolSort())
     S = E.solver
     S.add(L >= 0, L <= CHAIN)
     LIM = 1 << 40
     for i in range(CHAIN):
         S.add(c[i] != 0, z3.ULT(c[i], LIM), z3.ULT(z3.Select(sz0, c[i]), LIM), z3.UGE(z3.Select(sz0, c[i]), 64))
-        S.add(z3.Implies(L > i, z3.Select(ie0, c[i])))
+        S.add(z3.Implies(L > i, z3.Select(ie0, c[i]) == (mode == "empty")))
         # chain links
         if i + 1 < CHAIN:
             S.add(z3.Implies(L > i + 1, z3.And(z3.Select(nd0, c[i]) == 1, z3.Select(nv0, c[i]) == c[i + 1])))
@@ -209,6 +216,10 @@ def check_empty_chain(res, E, op):
     def m_get_empty(E_, st, frame, callee, argvals, dest_ty):
         h = heap(st)
         return ok(opt(h["hd"], h["hv"]))
+
+    def m_get_other(E_, st, frame, callee, argvals, dest_ty):
+        # the chain that is not under test: an arbitrary head
+        return ok(opt(z3.Int(op_ + "_other_has_head"), BV("other_head")))
 
     def optval(v):
         d = v.get(("disc",))
@@ -303,19 +314,80 @@ def check_empty_chain(res, E, op):
     def m_get_index(E_, st, frame, callee, argvals, dest_ty):
         return ok(opt(z3.Int(op + "_bucket_has_head"), BV("bucket_head")))
 
+    if mode == "bucket":
+        head_get, head_set = r"Archive::<Meta>::get_index$", r"Archive::<Meta>::set_index$"
+        other_get, other_set = r"Archive::<Meta>::get_empty_index$", r"Archive::<Meta>::set_empty_index$"
+    else:
+        head_get, head_set = r"Archive::<Meta>::get_empty_index$", r"Archive::<Meta>::set_empty_index$"
+        other_get, other_set = r"Archive::<Meta>::get_index$", r"Archive::<Meta>::set_index$"
+
+    def m_set_head(E_, st, frame, callee, argvals, dest_ty):
+        d, x = optval(argvals[-1])
+        if d is None:
+            return NotImplemented
+        st.mem[("HEAP", "hd")] = d
+        st.mem[("HEAP", "hv")] = x if x is not None else z3.BitVecVal(0, 64)
+        return ok()
+
     models = {
-        r"Archive::<Meta>::get_empty_index$": m_get_empty, r"Archive::<Meta>::set_empty_index$": m_set_empty,
+        head_get: m_get_empty, head_set: m_set_head, other_get: m_get_other, other_set: m_unit_ok,
         r"^ObjectHeader::read$": m_read, r"^ObjectHeader::update_next$": m_update_next, r"^ObjectHeader::write$": m_hdr_write,
         r"Archive::<Meta>::write_object$": m_write_object, r"Archive::<Meta>::page_object_size$": m_page_size,
         r"^<NonZero<u64> as Into<u64>>::into$|^<u64 as From<NonZero<u64>>>::from$": m_ident,
         r"^NonZero::<u64>::new$": m_nz_new, r"^<NonZero<u64> as Into<(std::option::)?Option<NonZero<u64>>>>::into$": m_nz_into_opt,
-        r"Archive::<Meta>::set_index$": m_unit_ok, r"^Storage::set_len$": m_set_len, r"Archive::<Meta>::get_index$": m_get_index,
+        r"^Storage::set_len$": m_set_len,
     }
+    if mode == "bucket":
+        # the empty chain is decided by the other mode; here its helpers succeed without touching bucket cells
+        models[r"Archive::<Meta>::(unlink_empty|create_empty)$"] = m_unit_ok
     selfp = mir.Opq("&mut Archive<Meta>", "archive")
     start = BV("start")
     args = {"_1": {(): selfp}}
     pre_extra = []
-    if op == "publish_replace":
+    removed_possible = True
+    if mode == "bucket":
+        ff = mir.struct_fields("FoundObject", F_)
+        if op in ("publish_append", "publish_replace"):
+            # the new object goes to `start` (publish_replace: an empty object; publish_append: the end of the file),
+            # a position that is no cell of the bucket chain
+            S.add(start != 0, z3.ULT(start, LIM), z3.Not(in_chain(start)))
+            for i in range(CHAIN):
+                S.add(z3.Implies(L > i, z3.Or(z3.ULE(c[i] + z3.Select(sz0, c[i]), start), z3.ULE(start + objsize, c[i]))))
+            S.add(z3.UGE(objsize, 64), z3.ULT(objsize, LIM))
+            if op == "publish_replace":
+                empty_hdr = {(("f", i_size),): BV("empty_size"), (("f", i_empty),): z3.BoolVal(True),
+                             (("f", i_next), "disc"): z3.Int(op_ + "_empty_has_next"), (("f", i_next), ("v", "Some"), ("f", 0)): BV("empty_next")}
+                S.add(z3.UGE(BV("empty_size"), objsize), z3.ULT(BV("empty_size"), LIM))
+                # the remainder of the empty object, if any, is no bucket cell either
+                for i in range(CHAIN):
+                    S.add(z3.Implies(L > i, z3.Or(z3.ULE(c[i] + z3.Select(sz0, c[i]), start), z3.ULE(start + BV("empty_size"), c[i]))))
+                args.update({"_6": empty_hdr, "_7": {(): start}})
+            else:
+                S.add(start == fsize)
+            expected_removed = z3.BitVecVal(0, 64)
+            removed_possible = False
+            new_cell = start
+            has_new = z3.BoolVal(True)
+        else:   # delete_found
+            jpos = z3.Int(op_ + "_found_index")
+            S.add(jpos >= 0, jpos < L)
+            S.add(z3.Or([z3.And(jpos == i, start == c[i]) for i in range(CHAIN)]))
+            found = {(("f", ff.index("start")),): start}
+            found[(("f", ff.index("header")), ("f", i_size))] = z3.Select(sz0, start)
+            found[(("f", ff.index("header")), ("f", i_empty))] = z3.BoolVal(False)
+            for k, v in opt(z3.Select(nd0, start), z3.Select(nv0, start)).items():
+                found[(("f", ff.index("header")), ("f", i_next)) + k] = v
+            prev_d = z3.If(jpos > 0, z3.IntVal(1), z3.IntVal(0))
+            prev_v = c[0]
+            for i in range(1, CHAIN):
+                prev_v = z3.If(jpos == i, c[i - 1], prev_v)
+            for k, v in opt(prev_d, prev_v).items():
+                found[(("f", ff.index("prev")),) + k] = v
+            args.update({"_3": found})
+            expected_removed = start
+            new_cell = z3.BitVecVal(0, 64)
+            has_new = z3.BoolVal(False)
+    elif op == "publish_replace":
         # the empty object being reused: a cell of the chain, handed over with its header; the new object fits and
         # the remainder, if any, can hold a header (find_empty's contract)
         S.add(in_chain(start))
@@ -352,7 +424,7 @@ def check_empty_chain(res, E, op):
 
     E.max_depth = 8
     paths = E.explore(body, max_visits=CHAIN + 3, nomut=[r"."], arg_values=args, pre=pre, models=models,
-                      inline=[r"Archive::<Meta>::unlink_empty$", r"^ObjectHeader::new(_empty)?$"], max_paths=20000)
+                      inline=([r"Archive::<Meta>::unlink_empty$"] if mode == "empty" else []) + [r"^ObjectHeader::new(_empty)?$"], max_paths=20000)
     E.max_depth = 6
     n = 0
     reported = False
@@ -382,7 +454,7 @@ def check_empty_chain(res, E, op):
         def reached(x):
             return z3.Or([z3.And(a, w == x) for a, w in walk])
         truncated = ("HEAP", "truncated") in p.mem
-        removed_applies = in_chain(expected_removed)
+        removed_applies = in_chain(expected_removed) if removed_possible else z3.BoolVal(False)
         want = [z3.Implies(z3.And(L > k, z3.Not(z3.And(removed_applies, c[k] == expected_removed))), reached(c[k])) for k in range(CHAIN)]
         if not truncated:
             want.append(z3.Implies(has_new, reached(new_cell)))
@@ -400,23 +472,27 @@ def check_empty_chain(res, E, op):
             for a, w in walk:
                 if z3.is_true(ev(a)):
                     newchain.append(ev(w).as_long())
-            desc = ("%s from an archive whose empty chain is %s (index -> cells in order)%s: afterwards the chain reachable from "
-                    "the empty index is %s; expected the old cells without %d%s" % (
-                        op, cells, ", reusing the empty object at %d for an object of %d bytes" % (ev(start).as_long(), ev(objsize).as_long())
-                        if op == "publish_replace" else ", deleting the object at %d (size %d)" % (ev(start).as_long(), ev(BV("size")).as_long()),
+            what_chain = "empty chain" if mode == "empty" else "bucket chain (objects with the same hash)"
+            desc = ("%s from an archive whose %s is %s (index -> cells in order)%s: afterwards the chain reachable from "
+                    "the index is %s; expected the old cells without %d%s" % (
+                        op, what_chain, cells,
+                        ", writing the new object at %d" % ev(start).as_long() if mode == "bucket" and op != "delete_found" else
+                        ", deleting the object at %d" % ev(start).as_long() if op in ("delete_found", "create_empty") else
+                        ", reusing the empty object at %d for an object of %d bytes" % (ev(start).as_long(), ev(objsize).as_long()),
                         newchain, ev(expected_removed).as_long(),
-                        " plus the new empty object at %d" % ev(new_cell).as_long() if z3.is_true(ev(has_new)) and not truncated else ""))
+                        " plus the new %s at %d" % ("empty object" if mode == "empty" else "object", ev(new_cell).as_long())
+                        if z3.is_true(ev(has_new)) and not truncated else ""))
             fn = mprop.write_cex(res, "empty_chain_%s_%d" % (op, i), p, E, desc, mdl)
             ok_ = native_sweep(res)
             if ok_ is False:
                 res.inconclusive.append("empty chain (%s): counterexample state not reproduced by the native scenario sweep: %s" % (op, desc))
             else:
-                res.violation("mir:archive:empty-chain:" + op,
-                              "an empty object drops out of (or a wrong cell enters) the archive's empty chain: " + desc +
+                res.violation("mir:archive:%s-chain:%s" % (mode, op),
+                              "a cell drops out of (or a wrong cell enters) the archive's %s chain: " % mode + desc +
                               ("; the native scenario sweep finds corrupt archives" if ok_ else " [native replay unavailable]"), fn)
-    res.samples.append({"operation": op, "ok_paths_checked": n, "chain_cells": CHAIN})
-    if n < 2:
-        res.inconclusive.append("vacuity: %s: only %d successful paths" % (op, n))
+    res.samples.append({"operation": op, "chain": mode, "ok_paths_checked": n, "chain_cells": CHAIN})
+    if n < 1:
+        res.inconclusive.append("vacuity: %s (%s chain): no successful path" % (op, mode))
     return n
 
 
